@@ -13,6 +13,21 @@ def where(tag):
     return [_os.getcwd(), tag]
 
 
+def describe(x):
+    return [type(x).__name__, repr(x)]
+
+
+class Box:
+    """hashed and compared by identity; its content is what a call depends on"""
+
+    def __init__(self, content):
+        self.content = content
+
+
+def unpack(box):
+    return box.content
+
+
 def main():
     import executorlib
 
@@ -48,6 +63,23 @@ def main():
                                   resource_dict={"cores": cores, "cwd": dirs[0]}) as e:
             want = [R(dirs[0]), "v"] if cores == 1 else [[R(dirs[0]), "v"]] * cores
             rec("cores=%d" % cores, e.submit(where, "v"), want)
+    # arguments that are == (and hash alike) but are different values, and one object resubmitted after its state changed:
+    # over one cache directory, in one interpreter, on one executor and on a second one
+    import numpy as np
+
+    equal_but_distinct = [1, 1.0, True, 0, False, 0.0, -0.0, "1", b"1", (1,), (1.0,), [1], [True], 1 + 0j, np.int64(1), np.float64(1.0),
+                          frozenset([1]), frozenset([1.0]), None, "", (), {"a": 1}, {"a": 1.0}]
+    cache2 = os.path.join(base, "cache_eq")
+    box = Box("first")
+    for rnd, order in enumerate([equal_but_distinct, list(reversed(equal_but_distinct))]):
+        with executorlib.Executor(backend="local", block_allocation=True, max_workers=1, cache_directory=cache2, disable_dependencies=bool(rnd)) as e:
+            for x in order:
+                rec("equal-but-distinct argument %r (%s), executor %d" % (x, type(x).__name__, rnd), e.submit(describe, x), describe(x))
+            for kw in (2, 2.0, True):
+                rec("equal-but-distinct keyword %r, executor %d" % (kw, rnd), e.submit(describe, x=kw), describe(kw))
+            rec("object with state %r, executor %d" % (box.content, rnd), e.submit(unpack, box), box.content)
+            box.content = "second" if rnd == 0 else "third"
+            rec("same object after its state changed to %r, executor %d" % (box.content, rnd), e.submit(unpack, box), box.content)
     print(json.dumps(out), flush=True)
     os._exit(0)
 
